@@ -2,7 +2,11 @@
 
 package cluster
 
-import "github.com/lni/dragonboat/v4"
+import (
+	"github.com/hashicorp/memberlist"
+	"github.com/lni/dragonboat/v4"
+	"go.uber.org/zap"
+)
 
 // Exports for the verification harness in /verif (build tag "verif"); no behaviour.
 
@@ -17,3 +21,27 @@ func VerifNewView() *VerifView                                { return &VerifVie
 func (w *VerifView) Update(us []dragonboat.ShardView)         { w.v.update(us) }
 func (w *VerifView) ShardInfo(id uint64) dragonboat.ShardView { return w.v.shardInfo(id) }
 func (w *VerifView) Copy() []dragonboat.ShardView             { return w.v.copy() }
+
+// VerifNode is a cluster node without the memberlist transport: the real Cluster event handlers and
+// the real memberlist delegate over one shared shard view, fed by a settable local Raft info.
+type VerifNode struct {
+	info dragonboat.NodeHostInfo
+	c    *Cluster
+	d    *delegate
+}
+
+func VerifNewNode() *VerifNode {
+	n := &VerifNode{}
+	f := func() Info { return Info{ShardInfoList: n.info.ShardInfoList} }
+	v := newView()
+	n.c = &Cluster{shardView: v, infoF: f, not: make(chan struct{}, 1), log: zap.S().Named("verif")}
+	n.d = &delegate{shardView: v, infoF: f}
+	return n
+}
+
+func (n *VerifNode) SetLocal(l []dragonboat.ShardInfo)        { n.info.ShardInfoList = l }
+func (n *VerifNode) Notify()                                  { n.c.Notify() }
+func (n *VerifNode) NotifyJoin()                              { n.c.NotifyJoin(&memberlist.Node{Name: "x"}) }
+func (n *VerifNode) LocalState(join bool) []byte              { return n.d.LocalState(join) }
+func (n *VerifNode) MergeRemoteState(b []byte, join bool)     { n.d.MergeRemoteState(b, join) }
+func (n *VerifNode) ShardInfo(id uint64) dragonboat.ShardView { return n.c.ShardInfo(id) }
